@@ -1,7 +1,7 @@
 (* C13 — lemmas about C09's abstract address book (c09.Abs) as identify uses
    it: frame (other peers untouched), TTL-class predicates, counting. *)
 From Coq Require Import List ZArith Bool Lia.
-From Verif Require Import c09.Abs.
+From Verif Require Import c09.Abs gen.Consts_c13 c13.Model.
 Import ListNotations.
 Local Open Scope Z_scope.
 
@@ -314,4 +314,261 @@ Proof.
   destruct (ep e =? p) eqn:E; cbn.
   - apply Z.eqb_eq in E. rewrite (H e (or_introl eq_refl) E). apply IH. intros x Hx. apply H. now right.
   - apply IH. intros x Hx. apply H. now right.
+Qed.
+
+(* ==== AddAddrs with the per-peer cap (Model.c_add) ================================== *)
+Lemma filter_imp_length {A} (f h : A -> bool) l : (forall x, f x = true -> h x = true) ->
+  (length (filter f l) <= length (filter h l))%nat.
+Proof.
+  intros H. induction l as [|x l IH]; cbn; [lia|]. destruct (f x) eqn:F.
+  - rewrite (H x F). cbn. lia.
+  - destruct (h x); cbn; lia.
+Qed.
+
+Lemma remove_ent_in p a l e : In e (remove_ent p a l) -> In e l.
+Proof. unfold remove_ent. intros H. apply filter_In in H. tauto. Qed.
+
+Lemma remove_ent_other p a l q : q <> p -> pents q (remove_ent p a l) = pents q l.
+Proof.
+  intros Hq. unfold pents, remove_ent. induction l as [|e l IH]; [reflexivity|]. cbn.
+  destruct (key_is p a e) eqn:K; cbn.
+  - unfold key_is in K. apply andb_true_iff in K. destruct K as [K _]. apply Z.eqb_eq in K.
+    destruct (ep e =? q) eqn:E; [apply Z.eqb_eq in E; congruence|exact IH].
+  - destruct (ep e =? q); [f_equal|]; exact IH.
+Qed.
+
+Lemma remove_ent_count (Q : aent -> bool) p a l :
+  (length (filter Q (remove_ent p a l)) <= length (filter Q l))%nat.
+Proof. unfold remove_ent. apply filter_filter_length_le. Qed.
+
+Lemma remove_ent_count_lt (Q : aent -> bool) v l : In v l -> Q v = true ->
+  (length (filter Q (remove_ent (ep v) (ea v) l)) < length (filter Q l))%nat.
+Proof.
+  intros Hi Hq. induction l as [|x l IH]; [destruct Hi|]. unfold remove_ent in *. cbn [filter].
+  destruct Hi as [->|Hi].
+  - unfold key_is at 1. rewrite !Z.eqb_refl. cbn [andb negb]. rewrite Hq. cbn [length].
+    pose proof (filter_filter_length_le Q (fun e => negb (key_is (ep v) (ea v) e)) l). lia.
+  - specialize (IH Hi). destruct (key_is (ep v) (ea v) x); cbn [negb filter].
+    + destruct (Q x); cbn [length]; lia.
+    + destruct (Q x); cbn [length]; lia.
+Qed.
+
+Lemma min_exp_in l v : min_exp l = Some v -> In v l.
+Proof.
+  revert v. induction l as [|e l IH]; intros v H; [discriminate|]. cbn in H.
+  destruct (min_exp l) as [m|].
+  - destruct (eexp m <? eexp e); inversion H; subst; [right; now apply IH|now left].
+  - inversion H. now left.
+Qed.
+
+Lemma min_exp_none l : min_exp l = None -> l = [].
+Proof. destruct l as [|e l]; [reflexivity|]. cbn. destruct (min_exp l) as [m|]; [destruct (_ <? _)|]; discriminate. Qed.
+
+(* what one capped insertion can do, in the terms the upsert lemmas use: it works
+   on a sub-list of the entries *)
+Lemma cadd_one_cases cap p ttl now ents a :
+  cadd_one cap p ttl now ents a = ents \/
+  exists ents', (forall e, In e ents' -> In e ents) /\
+                (forall q, q <> p -> pents q ents' = pents q ents) /\
+                (forall Q : aent -> bool, (length (filter Q ents') <= length (filter Q ents))%nat) /\
+                cadd_one cap p ttl now ents a = upsert_ext p a ttl (now + ttl) ents'.
+Proof.
+  unfold cadd_one. destruct (must_evict cap p ttl ents a).
+  - destruct (min_exp (filter (unconn_of p) ents)) as [v|]; [|now left]. right.
+    exists (remove_ent p (ea v) ents). repeat split.
+    + intros e. apply remove_ent_in.
+    + intros q Hq. now apply remove_ent_other.
+    + intros Q. apply remove_ent_count.
+  - right. exists ents. repeat split; auto.
+Qed.
+
+Lemma cadd_one_other cap p ttl now ents a q : q <> p -> pents q (cadd_one cap p ttl now ents a) = pents q ents.
+Proof.
+  intros Hq. destruct (cadd_one_cases cap p ttl now ents a) as [->|[ents' [_ [H2 [_ ->]]]]]; [reflexivity|].
+  rewrite upsert_ext_other by exact Hq. now apply H2.
+Qed.
+
+Lemma cadd_one_in cap p ttl now ents a e : In e (cadd_one cap p ttl now ents a) ->
+  In e ents \/ (ep e = p /\ ea e = a /\ (ettl e = ttl \/ exists e0, In e0 ents /\ ep e0 = p /\ ettl e = Z.max (ettl e0) ttl)).
+Proof.
+  destruct (cadd_one_cases cap p ttl now ents a) as [->|[ents' [H1 [_ [_ ->]]]]]; [now left|].
+  intros H. apply upsert_ext_in in H. destruct H as [H|[Ha [Hb [Hc|[e0 [Hd [He Hf]]]]]]].
+  - left. now apply H1.
+  - right. tauto.
+  - right. repeat split; try assumption. right. exists e0. repeat split; try assumption. now apply H1.
+Qed.
+
+Lemma cadd_one_count (Q : aent -> bool) cap p ttl now ents a :
+  (length (filter Q (cadd_one cap p ttl now ents a)) <= S (length (filter Q ents)))%nat.
+Proof.
+  destruct (cadd_one_cases cap p ttl now ents a) as [->|[ents' [_ [_ [H3 ->]]]]]; [lia|].
+  pose proof (upsert_count Q p a ttl (now + ttl) ents'). specialize (H3 Q). lia.
+Qed.
+
+Lemma cadd_one_count_same (Q : aent -> bool) cap p ttl now ents a :
+  (forall exp, Q (mkE p a ttl exp) = false) ->
+  (forall exp e0, key_is p a e0 = true ->
+     Q (mkE p a (Z.max (ettl e0) ttl) (Z.max (eexp e0) exp)) = true -> Q e0 = true) ->
+  (length (filter Q (cadd_one cap p ttl now ents a)) <= length (filter Q ents))%nat.
+Proof.
+  intros Hn Hk. destruct (cadd_one_cases cap p ttl now ents a) as [->|[ents' [_ [_ [H3 ->]]]]]; [lia|].
+  pose proof (upsert_count_same Q p a ttl (now + ttl) ents' (Hn _) (Hk _)). specialize (H3 Q). lia.
+Qed.
+
+Lemma cadd_list_other cap p ttl now l q : q <> p -> forall ents,
+  pents q (cadd_list cap p ttl now l ents) = pents q ents.
+Proof.
+  intros Hq. unfold cadd_list. induction l as [|a l IH]; intros ents; [reflexivity|]. cbn [fold_left].
+  rewrite IH. now apply cadd_one_other.
+Qed.
+
+Lemma cadd_list_pall cap p q ttl now (P : Z -> Prop) l :
+  (forall t, P t -> P (Z.max t ttl)) -> P ttl -> forall ents,
+  (forall e, In e ents -> ep e = p -> P (ettl e)) ->
+  forall e, In e (cadd_list cap q ttl now l ents) -> ep e = p -> P (ettl e).
+Proof.
+  intros Hm Ht. unfold cadd_list. induction l as [|a l IH]; intros ents H; [exact H|]. cbn [fold_left].
+  apply IH. intros e He Hp. apply cadd_one_in in He. destruct He as [He|[Hq [_ [He|[e0 [Ha [Hb Hc]]]]]]].
+  - now apply H.
+  - now rewrite He.
+  - rewrite Hc. apply Hm. apply H; [exact Ha|]. congruence.
+Qed.
+
+Lemma cadd_list_in cap p ttl now l : forall ents e, In e (cadd_list cap p ttl now l ents) ->
+  In e ents \/ (ep e = p /\ In (ea e) l).
+Proof.
+  unfold cadd_list. induction l as [|a l IH]; intros ents e H; [now left|]. cbn [fold_left] in H.
+  apply IH in H. destruct H as [H|[H1 H2]]; [|right; split; [exact H1|now right]].
+  apply cadd_one_in in H. destruct H as [H|[H1 [H2 _]]]; [now left|]. right. split; [exact H1|now left].
+Qed.
+
+Lemma cadd_list_count (Q : aent -> bool) cap p ttl now l : forall ents,
+  (length (filter Q (cadd_list cap p ttl now l ents)) <= length (filter Q ents) + length l)%nat.
+Proof.
+  unfold cadd_list. induction l as [|a l IH]; intros ents; cbn [fold_left length]; [lia|].
+  specialize (IH (cadd_one cap p ttl now ents a)). pose proof (cadd_one_count Q cap p ttl now ents a). lia.
+Qed.
+
+Lemma cadd_list_count_same (Q : aent -> bool) cap p ttl now l :
+  (forall a exp, Q (mkE p a ttl exp) = false) ->
+  (forall a exp e0, key_is p a e0 = true ->
+     Q (mkE p a (Z.max (ettl e0) ttl) (Z.max (eexp e0) exp)) = true -> Q e0 = true) ->
+  forall ents, (length (filter Q (cadd_list cap p ttl now l ents)) <= length (filter Q ents))%nat.
+Proof.
+  intros Hn Hk. unfold cadd_list. induction l as [|a l IH]; intros ents; cbn [fold_left]; [lia|].
+  specialize (IH (cadd_one cap p ttl now ents a)).
+  pose proof (cadd_one_count_same Q cap p ttl now ents a (Hn a) (Hk a)). lia.
+Qed.
+
+Lemma c_add_ents cap s p l ttl : (ttl <=? 0) = false ->
+  a_ents (c_add cap s p l ttl) = filter (live (a_now s)) (cadd_list cap p ttl (a_now s) (clean_addrs l) (a_ents s)).
+Proof. intros H. unfold c_add. rewrite H. reflexivity. Qed.
+
+Lemma c_add_ok cap s p l ttl : book_ok s -> book_ok (c_add cap s p l ttl).
+Proof.
+  intros [H1 H2]. unfold c_add. destruct (ttl <=? 0); [now split|]. rewrite H2. apply mk_norm_ok.
+Qed.
+
+Lemma c_add_other cap s p l ttl q : q <> p -> all_live s ->
+  pents q (a_ents (c_add cap s p l ttl)) = pents q (a_ents s).
+Proof.
+  intros Hq Hl. destruct (ttl <=? 0) eqn:T; [unfold c_add; now rewrite T|].
+  rewrite c_add_ents, pents_live_comm, cadd_list_other by assumption. now apply pents_live_id.
+Qed.
+
+Lemma cadd_preserve cap s p q l ttl (P : Z -> Prop) :
+  (forall t, P t -> P (Z.max t ttl)) -> P ttl -> pall p P s -> pall p P (c_add cap s q l ttl).
+Proof.
+  intros Hm Ht H. destruct (ttl <=? 0) eqn:T; [unfold c_add; now rewrite T|]. intros e He Hp.
+  rewrite c_add_ents in He by exact T. apply filter_In in He. destruct He as [He _].
+  revert e He Hp. apply cadd_list_pall; assumption.
+Qed.
+
+Lemma c_add_in cap s p l ttl e : In e (a_ents (c_add cap s p l ttl)) ->
+  In e (a_ents s) \/ (ep e = p /\ In (ea e) (clean_addrs l)).
+Proof.
+  destruct (ttl <=? 0) eqn:T; [unfold c_add; rewrite T; now left|]. rewrite c_add_ents by exact T. intros H.
+  apply filter_In in H. destruct H as [H _]. now apply cadd_list_in in H.
+Qed.
+
+Lemma c_add_count (Q : aent -> bool) cap s p l ttl :
+  (length (filter Q (a_ents (c_add cap s p l ttl))) <= length (filter Q (a_ents s)) + length l)%nat.
+Proof.
+  destruct (ttl <=? 0) eqn:T; [unfold c_add; rewrite T; lia|]. rewrite c_add_ents by exact T.
+  pose proof (filter_filter_length_le Q (live (a_now s)) (cadd_list cap p ttl (a_now s) (clean_addrs l) (a_ents s))).
+  pose proof (cadd_list_count Q cap p ttl (a_now s) (clean_addrs l) (a_ents s)).
+  pose proof (clean_addrs_length l). lia.
+Qed.
+
+Lemma c_add_count_same (Q : aent -> bool) cap s p l ttl :
+  (forall a exp, Q (mkE p a ttl exp) = false) ->
+  (forall a exp e0, key_is p a e0 = true ->
+     Q (mkE p a (Z.max (ettl e0) ttl) (Z.max (eexp e0) exp)) = true -> Q e0 = true) ->
+  (length (filter Q (a_ents (c_add cap s p l ttl))) <= length (filter Q (a_ents s)))%nat.
+Proof.
+  intros Hn Hk. destruct (ttl <=? 0) eqn:T; [unfold c_add; rewrite T; lia|]. rewrite c_add_ents by exact T.
+  pose proof (filter_filter_length_le Q (live (a_now s)) (cadd_list cap p ttl (a_now s) (clean_addrs l) (a_ents s))).
+  pose proof (cadd_list_count_same Q cap p ttl (a_now s) (clean_addrs l) Hn Hk (a_ents s)). lia.
+Qed.
+
+(* ---- the cap itself ------------------------------------------------------------------ *)
+(* extending a known address never moves it below the connected class *)
+Lemma upsert_found_count (Q : aent -> bool) p a ttl exp l : find_ent p a l <> None ->
+  (forall e0, key_is p a e0 = true ->
+     Q (mkE p a (Z.max (ettl e0) ttl) (Z.max (eexp e0) exp)) = true -> Q e0 = true) ->
+  (length (filter Q (upsert_ext p a ttl exp l)) <= length (filter Q l))%nat.
+Proof.
+  intros Hf Hk. unfold find_ent in Hf. induction l as [|x l IH]; [cbn in Hf; congruence|]. cbn in *.
+  destruct (key_is p a x) eqn:K; cbn.
+  - destruct (Q (mkE p a (Z.max (ettl x) ttl) (Z.max (eexp x) exp))) eqn:E;
+      [rewrite (Hk x K E); cbn; lia|destruct (Q x); cbn; lia].
+  - specialize (IH Hf). destruct (Q x); cbn; lia.
+Qed.
+
+Definition ucount (p : Z) (l : list aent) : Z := Z.of_nat (length (filter (unconn_of p) l)).
+
+Lemma unconn_max p a t ttl x : unconn_of p (mkE p a (Z.max t ttl) x) = true -> is_unconn t = true.
+Proof.
+  unfold unconn_of, is_unconn. cbn. rewrite Z.eqb_refl. cbn. intros H. apply Z.ltb_lt in H. apply Z.ltb_lt. lia.
+Qed.
+
+Lemma cadd_one_ucount cap p ttl now ents a : 0 < cap ->
+  ucount p (cadd_one cap p ttl now ents a) <= Z.max cap (ucount p ents).
+Proof.
+  intros Hc. unfold cadd_one, must_evict, ucount.
+  assert (Hk : forall exp e0, key_is p a e0 = true ->
+            unconn_of p (mkE p a (Z.max (ettl e0) ttl) (Z.max (eexp e0) exp)) = true -> unconn_of p e0 = true).
+  { intros exp e0 K H. apply unconn_max in H. unfold unconn_of. unfold key_is in K. apply andb_true_iff in K.
+    destruct K as [K _]. now rewrite K, H. }
+  destruct (find_ent p a ents) eqn:F.
+  - pose proof (upsert_found_count (unconn_of p) p a ttl (now + ttl) ents) as H. rewrite F in H.
+    specialize (H ltac:(discriminate) (Hk _)). lia.
+  - replace (0 <? cap) with true by (symmetry; now apply Z.ltb_lt). cbn [andb].
+    destruct (is_unconn ttl) eqn:Ut; cbn [andb].
+    + destruct (cap <=? Z.of_nat (length (filter (unconn_of p) ents))) eqn:Full.
+      * apply Z.leb_le in Full. destruct (min_exp (filter (unconn_of p) ents)) as [v|] eqn:M; [|lia].
+        apply min_exp_in in M. apply filter_In in M. destruct M as [Mi Mq].
+        assert (Ev : ep v = p). { unfold unconn_of in Mq. apply andb_true_iff in Mq. destruct Mq as [Mq _]. now apply Z.eqb_eq. }
+        pose proof (remove_ent_count_lt (unconn_of p) v ents Mi Mq) as Hlt. rewrite Ev in Hlt.
+        pose proof (upsert_count (unconn_of p) p a ttl (now + ttl) (remove_ent p (ea v) ents)). lia.
+      * apply Z.leb_gt in Full. pose proof (upsert_count (unconn_of p) p a ttl (now + ttl) ents). lia.
+    + pose proof (upsert_count_same (unconn_of p) p a ttl (now + ttl) ents) as H.
+      assert (unconn_of p (mkE p a ttl (now + ttl)) = false) as Hn by (unfold unconn_of; cbn; now rewrite Ut, andb_false_r).
+      specialize (H Hn (Hk _)). lia.
+Qed.
+
+Lemma cadd_list_ucount cap p ttl now l : 0 < cap -> forall ents,
+  ucount p (cadd_list cap p ttl now l ents) <= Z.max cap (ucount p ents).
+Proof.
+  intros Hc. unfold cadd_list. induction l as [|a l IH]; intros ents; cbn [fold_left]; [lia|].
+  specialize (IH (cadd_one cap p ttl now ents a)). pose proof (cadd_one_ucount cap p ttl now ents a Hc). lia.
+Qed.
+
+Lemma c_add_ucount cap s p l ttl : 0 < cap ->
+  ucount p (a_ents (c_add cap s p l ttl)) <= Z.max cap (ucount p (a_ents s)).
+Proof.
+  intros Hc. destruct (ttl <=? 0) eqn:T; [unfold c_add; rewrite T; lia|]. rewrite c_add_ents by exact T.
+  pose proof (cadd_list_ucount cap p ttl (a_now s) (clean_addrs l) Hc (a_ents s)). unfold ucount in *.
+  pose proof (filter_filter_length_le (unconn_of p) (live (a_now s)) (cadd_list cap p ttl (a_now s) (clean_addrs l) (a_ents s))).
+  lia.
 Qed.
